@@ -93,7 +93,8 @@ def run_job(ctx, drv, job, tag):
         json.dump(job, fh)
     rc, log, to = ctx.go_run(drv, "TestVerifPipeline", env={"VERIF_JOBS": jin, "VERIF_OUT": jout}, timeout=300, cwd=d)
     if rc != 0 or to or not os.path.exists(jout):
-        return {"crash": log[-2500:], "timeout": to}
+        i = log.find("WARNING: DATA RACE")
+        return {"crash": (log[i:i + 6000] + "\n...\n" if i >= 0 else "") + log[-2500:], "timeout": to}
     with open(jout) as fh:
         return json.load(fh)
 
@@ -138,7 +139,7 @@ def parallel_stage(ctx, thorough, protos=None, sflow_filter=None):
                 if drv_write:
                     raise vlib.Infra("the parallel driver itself wrote something the workers read: " + m.group(0)[:1200])
                 ctx.violation("%s pipeline, 4 workers in parallel: the workers share state they write without synchronisation (race detector): %s"
-                              % (proto, " / ".join(re.findall(r"^  (github[^\n(]*)", m.group(0), re.M)[:4])), dict(case, report=m.group(0)[:2500]),
+                              % (proto, " / ".join([x.rstrip("()") for x in re.findall(r"^  (github\S*)", m.group(0), re.M)][:4])), dict(case, report=m.group(0)[:2500]),
                               key=proto + ":parallel-race")
                 continue
             why = next((l for l in r["crash"].split("\n") if l.startswith(("panic:", "fatal error:"))), None)
